@@ -63,9 +63,27 @@ def renumber(events):
     return out
 
 
-def validate(ctx, module, events, label, how, classify, drop, max_rejects=8):
-    """Validate events (list of dicts ending with End). On rejection: report the offending event (signature from
-    classify(ev)), remove what drop(events, index) says, renumber and continue. Returns number of rejections."""
+def validate(ctx, module, events, label, how, classify, drop, max_rejects=8, chunk=None):
+    """Validate events (Reset ... End). With chunk=N a long single-run trace is cut into pieces of N events, each framed
+    by the Reset and an End, one TLC run per piece (bounds the JVM heap). Returns (rejections, surviving events)."""
+    body = [e for e in events if e["e"] != "End"]
+    if not chunk or len(body) - 1 <= chunk:
+        return validate_one(ctx, module, events, label, how, classify, drop, max_rejects)
+    head, rest = body[0], body[1:]
+    total, kept = 0, [head]
+    for k in range(0, len(rest), chunk):
+        piece = [head] + rest[k:k + chunk] + [{"e": "End"}]
+        r, cur = validate_one(ctx, module, piece, "%s-p%d" % (label, k // chunk), how, classify, drop, max_rejects)
+        total += r
+        kept += [e for e in cur if e["e"] not in ("Reset", "End")]
+        if total >= max_rejects:
+            break
+    return total, kept + [{"e": "End"}]
+
+
+def validate_one(ctx, module, events, label, how, classify, drop, max_rejects=8):
+    """On rejection: report the offending event (signature from classify(ev)), remove what drop(events, index) says,
+    renumber and continue."""
     rejects = 0
     cur = list(events)
     rnd = 0
@@ -85,7 +103,7 @@ def validate(ctx, module, events, label, how, classify, drop, max_rejects=8):
             raise Infra("%s: framing event rejected: %s\n%s" % (label, ev, r.out[-1500:]))
         rejects += 1
         sig = classify(ev)
-        rp = ctx.save_replay("%s-seed%d-ev%s.json" % (label, ctx.seed, ev.get("id", hwm)),
+        rp = ctx.save_replay("%s-seed%d-ev%s%s.json" % (label, ctx.seed, ev.get("prof", ""), ev.get("id", hwm)),
                              {"how": how, "offending_index": hwm, "offending_event": ev, "signature": sig,
                               "tlc": (r.invariant or r.error or "event not allowed by the specification")})
         ctx.report(sig, "%s: event #%d rejected by %s (%s): %s" % (label, hwm, module, sig, json.dumps(ev, sort_keys=True)[:1500]), rp)
@@ -131,6 +149,22 @@ def reward_of(f, gas_used):
     return p * gas_used * val(f["ratio"]) // 10 ** 18
 
 
+def payer_of(f):
+    if f["delegated"]:
+        return "delegator" if f["delegFunds"] else "none"
+    if f["commonTo"] and f["creditGE"] and f["sponsorSel"] and f["sponsorFunds"]:
+        return "sponsor"
+    if f["commonTo"] and f["creditGE"] and f["contractFunds"]:
+        return "contract"
+    return "origin" if f["originFunds"] else "none"
+
+
+def can_start(ev):
+    f = ev["fee"]
+    price_ok = (not f["gal"]) or eff_price(f) >= val(f["baseFee"])
+    return ev["sigok"] and ev["intr"] <= ev["gas"] <= ev["limit"] and price_ok and payer_of(ev["facts"]) != "none"
+
+
 def classify_tx(ev):
     e = ev.get("e")
     if e == "Adopt":
@@ -145,8 +179,10 @@ def classify_tx(ev):
         return "panic:ExecuteTransaction"
     if not ev["started"]:
         return "cannot-start-changed-state" if ev.get("unchanged") is False else "start-verdict"
-    if "raws" not in ev:
+    if "raws" not in ev or not can_start(ev):
         return "start-verdict"
+    if ev["payer"] != payer_of(ev["facts"]):
+        return "payer-choice"
     fin = run_rules(ev["gas"], ev["intr"], ev["raws"])
     want = "none" if fin["reverted"] else "all"
     if ev["applied"] != want:
